@@ -247,7 +247,7 @@ def worker(args):
         return _worker(args)
     except Exception:
         r = Result()
-        r.inconclusive.append('worker exception: ' + traceback.format_exc()[-2000:])
+        r.inconclusive.append('worker exception: ' + traceback.format_exc()[-6000:])
         return r
 
 
@@ -325,7 +325,7 @@ def legal(meta, ops, upto=None, two_monitors=False):
                 if sh['nq'] == 2 and p['s0'] == p['s1']:
                     return None
                 for j in range(3):
-                    if p.get('se%d' % j) == 2 and (p.get('nobj') not in m.objs or m.objs[p['nobj']].kind not in 'MW' or p['nobj'] == op[4]):
+                    if p.get('se%d' % j) == 2 and (p.get('nobj') not in m.objs or m.objs[p['nobj']].kind not in 'MW' or p['nobj'] == op[4] or sh['fn'] == 'v'):
                         return None
                 live_slots.add(key)
                 owner[op[1]] = key
